@@ -3,6 +3,7 @@
 from __future__ import annotations
 
 import copy
+import typing
 
 from .. import core, gen, hist, model
 from ..session import Outcome
@@ -219,6 +220,16 @@ class C11(PropBase):
                 if rng.random() < 0.4:
                     step["via"] = "vwr"
                     step["via_depth"] = rng.randint(0, 5)
+                if len(mods) > 1 and rng.random() < 0.35:
+                    # the *other* module's class of that name, named explicitly (qualified string or
+                    # ForwardRef(module=)) from a module that binds the same short name to its own class
+                    step["target"] = rng.choice([m for m in mods if m != mod])
+                    step["spelling"] = rng.choice(["qualified", "fref"])
+                    step.pop("via", None)
+                if rng.random() < 0.25:
+                    step["shadowed"] = True  # issued by a function whose locals bind the same names to something else
+                    step.pop("via", None)
+                    step.pop("depth", None)
                 steps.append(step)
                 continue
             c = rng.choice(cases)
@@ -289,11 +300,15 @@ class C11(PropBase):
                 sess.faults["other_module_first"] += 1
                 sess.fault_fired_before = True
             def issue(fn, *args):
+                if step.get("shadowed"):
+                    return sess.guarded(sess.world.modules[step["mod"]]._vw_call_shadowed, fn, args, {})
                 if step.get("via"):
                     relay = sess.world.modules[step["via"]]._vw_call
                     return sess.guarded(sess.call, step, relay, fn, args, {}, int(step.get("via_depth", 0)))
                 return sess.guarded(sess.call, step, fn, *args)
 
+            if step.get("target"):
+                name = f"{step['target']}.{name}" if step["spelling"] == "qualified" else typing.ForwardRef(name, module=step["target"])
             if step["dir"] == "unmarshal":
                 out = issue(typelib.unmarshal, name, sess.V(step["x"]))
             elif step["dir"] == "build":
@@ -358,7 +373,7 @@ class C11(PropBase):
 
     def check(self, sess, i, step, out):
         if step["op"] == "bare":
-            want = sess.world.obj(step["mod"], step["name"])
+            want = sess.world.obj(step.get("target") or step["mod"], step["name"])
             other = [m for m in sess.world.modules if m != step["mod"]]
             first_other = sess.bare_first.get(step["name"]) != step["mod"]
             got_cls = None
